@@ -165,16 +165,42 @@ pub fn amount_budget(op: &DynOp, e: &OpEval, ur: usize) -> Option<(Rat, Rat)> {
     let st = unit_scale(op.r, ur);
     let st_inv = st.recip();
     let exact = e.m.mul(&st_inv);
-    if e.is_mul {
-        let b = amt::product_budget_reps(&[&e.ra, &e.rb, &e.sa, &e.sb, &st_inv], &[&e.sa, &e.sb, &st])?;
-        Some((exact, b))
-    } else {
-        let ab = e.ra.div(&e.rb);
-        let sab = e.sa.div(&e.sb);
-        let ab_t = ab.mul(&st_inv);
-        let sab_t = sab.mul(&st_inv);
-        let inter: Vec<&Rat> = vec![&e.ra, &e.rb, &ab, &sab, &e.ma, &e.mb, &e.m, &ab_t, &sab_t, &st_inv, &st, &e.sa, &e.sb];
-        let b = amt::budget_with(&exact, &inter)?;
+    #[cfg(not(feature = "dec"))]
+    {
+        if e.is_mul {
+            let b = amt::product_budget_reps(&[&e.ra, &e.rb, &e.sa, &e.sb, &st_inv], &[&e.sa, &e.sb, &st])?;
+            Some((exact, b))
+        } else {
+            let ab = e.ra.div(&e.rb);
+            let sab = e.sa.div(&e.sb);
+            let ab_t = ab.mul(&st_inv);
+            let sab_t = sab.mul(&st_inv);
+            let inter: Vec<&Rat> = vec![&e.ra, &e.rb, &ab, &sab, &e.ma, &e.mb, &e.m, &ab_t, &sab_t, &st_inv, &st, &e.sa, &e.sb];
+            let b = amt::budget_with(&exact, &inter)?;
+            Some((exact, b))
+        }
+    }
+    #[cfg(feature = "dec")]
+    {
+        // Decimal: the reference-unit magnitude m is formed from the operands
+        // and their scales in any order (order-independent budget), the result
+        // amount is m DIVIDED by the scale of its unit: that division rounds
+        // once more (8 delta (1 + |R|)) and scales the error of m by 1 / S.
+        // Multiplying by a rounded reciprocal 1 / S instead is not an
+        // admissible evaluation: it loses up to 0.5e-18 * S relative.
+        let bud_m = if e.is_mul {
+            amt::product_budget_reps(&[&e.ra, &e.rb, &e.sa, &e.sb], &[&e.sa, &e.sb])?
+        } else {
+            let ab = e.ra.div(&e.rb);
+            let sab = e.sa.div(&e.sb);
+            let inter: Vec<&Rat> = vec![&e.ra, &e.rb, &ab, &sab, &e.ma, &e.mb, &e.m, &e.sa, &e.sb];
+            amt::budget_with(&e.m, &inter)?
+        };
+        let mut b = bud_m.mul(&st_inv).add(&amt::Budget::abs_dec().mul(&Rat::one().add(&exact.abs())));
+        if !representable(&st) {
+            // the unit's own scale carries a representation error
+            b = b.add(&amt::Budget::abs_dec().mul(&exact.abs()).mul(&st_inv));
+        }
         Some((exact, b))
     }
 }
